@@ -677,6 +677,9 @@ class Executor:
                     if attr in cc and not isinstance(cc[attr], (dict, tuple)):
                         yield st, self.lit(cc[attr])
                         return
+                    if attr in cc and isinstance(cc[attr], tuple) and cc[attr] and cc[attr][0] == "alias":
+                        yield st, self.module_name(extract.load(home), cc[attr][1])  # e.g. Channel.TimeoutError = TimeoutError
+                        return
             raise Unsupported(f"attribute {recv.ty.cls}.{attr} (no field declaration, method or contract) line {getattr(node, 'lineno', '?')}")
         # methods of builtin value types are resolved at call time
         yield st, SV(FUNCT, BoundBuiltinD(recv, attr, getattr(node, "value", None)))
@@ -855,7 +858,7 @@ class Executor:
         if self.paths > self.path_limit:
             raise Unsupported("path limit exceeded")
         if callee.ty.kind == "any":
-            hook = self.w.call_hooks.get(("call", "opaque"))
+            hook = self.w.call_hooks.get(("call", "opaque")) or self.w.call_hooks.get(("call", "any"))
             if hook is None:
                 raise Unsupported("call of an opaque callable without a callback model")
             yield from hook(self, callee, args, kwargs, st, sink, node)
@@ -1057,8 +1060,20 @@ class Executor:
         self._dyn_checks = []
         for n in names:
             try:
+                bt, pt = bound[n].ty, c.params[n]
+                if bt.kind == "ref" and pt.kind == "ref" and bt.cls != pt.cls and bt.cls != "object" and pt.cls != "object" \
+                        and not self.w.schema.issub(bt.cls, pt.cls) and not self.w.schema.issub(pt.cls, bt.cls):
+                    raise Unsupported(f"a {bt.cls} is not a {pt.cls}")
                 out[n] = coerce(bound[n], c.params[n])
             except Unsupported as e:
+                vk, pk = bound[n].ty.kind, c.params[n].kind
+                definite = {"int", "bool", "str", "bytes", "float", "ref", "seq", "map", "set", "tuple"}
+                if vk in definite and pk in definite and vk != pk and not ({vk, pk} <= {"int", "bool"}):
+                    # statically the wrong type for this parameter (e.g. a str where an exception object is required):
+                    # an obligation that fails, not an engine limitation
+                    self._dyn_checks.append((n, z3.BoolVal(False)))
+                    out[n] = fresh(c.params[n], n)
+                    continue
                 raise Unsupported(f"argument {n} of {c.target}: {e}")
             if bound[n].ty.kind == "dt" and c.params[n] != bound[n].ty:
                 # a dynamically typed value flows into a parameter the contract types statically:
@@ -1139,6 +1154,8 @@ class Executor:
                 e = ExcV(case.exc, tuple(fresh(STR, "excarg") for _ in range(getattr(case, "nargs", 0) or 0)), None, origin=f"{c.qualname}")
                 e.exact = getattr(case, "exact", True)
                 e.excluded = ()
+                if getattr(case, "excluding", ()):
+                    e.exact, e.excluded = False, tuple(case.excluding)
                 if getattr(case, "excref", None) is not None:
                     e.ref = case.excref(a, h, h2)
                 sink.append((s2, (RAISE, e)))
@@ -1477,8 +1494,16 @@ class Executor:
         if pl is not None:
             return self.exec_block(node.body if pl else node.orelse, st)
         outs = []
+        narrow = None  # `if x is None` / `if x is not None` on an optional local: narrow its type in the branches
+        t = node.test
+        if isinstance(t, ast.Compare) and len(t.ops) == 1 and isinstance(t.ops[0], (ast.Is, ast.IsNot)) and isinstance(t.left, ast.Name) \
+                and isinstance(t.comparators[0], ast.Constant) and t.comparators[0].value is None:
+            narrow = (t.left.id, isinstance(t.ops[0], ast.Is))
         for st2, c in self.ev(node.test, st, outs):
             for st3, br in self.fork(st2, self.truth(c)):
+                if narrow is not None and narrow[0] in st3.locals and st3.locals[narrow[0]].ty.kind == "opt":
+                    v = st3.locals[narrow[0]]
+                    st3.locals[narrow[0]] = NONEV if br == narrow[1] else v.v[1]
                 outs.extend(self.exec_block(node.body if br else node.orelse, st3))
         return outs
 
@@ -1875,6 +1900,8 @@ class Executor:
             st.assume(f)
         if not self.feasible(st):
             raise Unsupported(f"contract {c.target}: precondition is unsatisfiable (vacuous)")
+        if c.ghost_init is not None:
+            st.ghost = dict(st.ghost, **c.ghost_init(a, h0))
         if c.probes:
             for pname, term in c.probes(a, h0).items():
                 pc = z3.Const("probe_" + pname, term.sort())
@@ -1938,7 +1965,12 @@ class Executor:
                 for case in c.cases:
                     if case.kind != "raise":
                         continue
-                    if self.exc_issub(e.cls, case.exc) and (getattr(e, "exact", True) or True):
+                    covered = self.exc_issub(e.cls, case.exc)
+                    for ex_ in getattr(case, "excluding", ()) or ():
+                        # "BaseException but not Exception": an exception known to be outside the excluded class
+                        if self.exc_issub(e.cls, ex_) or not (getattr(e, "exact", True) or ex_ in getattr(e, "excluded", ())):
+                            covered = False
+                    if covered:
                         conj = [case.when(a, h0)] + list(case.post(a, h0, h2, e))
                         alts.append(z3.And(*conj))
                 goal = z3.Or(*alts) if alts else z3.BoolVal(False)
